@@ -58,6 +58,10 @@ ASSUMPTIONS = [
     "symbol recovery is compared as sequence class + symbol string (alphabet choice ambiguous/unambiguous follows the "
     "constructor); FASTA type guessing follows the documented rule (nucleotide if it fits, else protein)",
     "GFF3: seqid / source / type are stripped by the writer (accepted); None for seqid/source is outside the documented types",
+    "GFF3 type (feature key) containing '%', a tab or a line break is not named by the statement: exception or any "
+    "self-consistent behaviour (live view == parsed view) is accepted; counted as unspecified_gff_type_*",
+    "GenBankFile edits with an index below -len and fields with an empty content list are not named by the statement: "
+    "they are executed at every state and their outcome is only counted (outside_statement_*), nothing is demanded",
     "File.copy() is not an editing operation of the statement and is not explored",
     "the FASTQ score container type (list / int64 / int8 / int16|uint8 array) cycles with the case index",
 ]
@@ -474,7 +478,8 @@ def fastq_layout_ok(text, ident, seq, chars, w):
     lines = text.split("\n")
     if len(lines) < 2 or lines[-1] != "" or lines[0] != "@" + ident:
         return False
-    body = lines[1:-1]
+    # an empty line carries no characters (an empty read is conventionally written as '@id', '', '+', '')
+    body = [x for x in lines[1:-1] if x != ""]
     acc, i = "", 0
     while i < len(body) and len(acc) < len(seq):
         acc += body[i]
@@ -1221,10 +1226,53 @@ def gff_classify(b, case):
     return ("gff|entry|%s|%s" % (mode, cls), "GFF3 entry is not recovered", exp, obs)
 
 
+def gff_type_unspecified(e):
+    """The statement does not name feature keys with characters that GFF3 percent-encodes: a type containing '%',
+    a tab or a line break is an unspecified input (exception or any self-consistent behaviour)."""
+    return any(c in e[2] for c in "%\t\n")
+
+
+def gff_lenient(b, ents):
+    """Unspecified input: returns (outcome, detail); outcome in refused / both_raise / consistent / inconsistent."""
+    GFFFile = b.gff.GFFFile
+    f = GFFFile()
+    try:
+        for e in ents:
+            f.append(*gff_args(b, e))
+    except Exception as ex:  # noqa: BLE001
+        return "refused", repr(ex)
+
+    def view(obj):
+        try:
+            return [gff_view(b, obj[i]) for i in range(len(obj))]
+        except Exception as ex:  # noqa: BLE001
+            return "raises " + exc_name(ex)
+
+    live = view(f)
+    try:
+        parsed = view(GFFFile.read(io.StringIO(text_of(f))))
+    except Exception as ex:  # noqa: BLE001
+        parsed = "raises " + exc_name(ex)
+    if isinstance(live, str) or isinstance(parsed, str):
+        return ("both_raise" if isinstance(live, str) and isinstance(parsed, str) else "inconsistent"), [live, parsed]
+    same = len(live) == len(parsed) and all(same_entry(x, y) for x, y in zip(live, parsed))
+    return ("consistent" if same else "inconsistent"), [live, parsed]
+
+
 def check_gff(case, ctx):
     b = B()
     ents = [gff_entry(d) for d in case["ents"]]
     ctx.ev(1, 1 if any(d for d in case["ents"]) else 0)
+    if any(gff_type_unspecified(e) for e in ents):
+        ctx.count("unspecified")
+        outcome, detail = gff_lenient(b, ents)
+        ctx.count("unspecified_gff_type_%s" % outcome)
+        ctx.outcome(("gff_unspec", json.dumps(case, sort_keys=True), outcome))
+        if outcome == "inconsistent":
+            ctx.violation("gff|entry|inconsistent_after_unspecified_input|type_%s" % str_class(ents[0][2]),
+                          "for a type the statement does not specify, the live view and the parsed text disagree", case,
+                          "live == parsed or an exception", detail)
+        return
     ref = any(gff_refused(e) for e in ents)
     ctx.count("refused" if ref else "accepted")
     r = gff_classify(b, case)
@@ -1732,7 +1780,11 @@ class GenBankSpec:
     def model(m, op, cfg):
         n = len(m)
         k = op[0]
-        if k in ("get",) or (k in ("app", "set", "set_field") and len(op[-1][1]) == 0):
+        if k in ("app", "set", "set_field") and len(op[-1][1]) == 0:
+            return "outside", None
+        if k in ("get", "set", "del", "ins") and op[1] < -n:
+            return "outside", None
+        if k == "get":
             return "unspec", None
         if k == "app":
             return "accept", [m + [gb_norm(op[1])]]
@@ -2097,7 +2149,15 @@ def hist_step(spec, cfg, hist, m, op, ctx):
         raised = e
     changed = kind == "accept" and alts[0] != m
     ctx.ev(1, 1 if changed else 0)
-    ctx.count({"accept": "accepted", "refuse": "refused", "unspec": "unspecified"}[kind])
+    ctx.count({"accept": "accepted", "refuse": "refused", "unspec": "unspecified", "outside": "unspecified"}[kind])
+    if kind == "outside":
+        # inputs the statement does not name (index below -len, field without content lines): executed, the outcome is
+        # recorded, nothing is demanded
+        sc = self_consistent(spec, f, cfg)
+        res = "raised" if raised is not None else ("self_consistent" if sc is None else "live_and_text_disagree")
+        ctx.count("outside_statement_%s_%s_%s" % (spec.name, oc, res))
+        ctx.outcome((spec.name, "outside", oc, res))
+        return None
     if kind == "accept":
         if raised is not None:
             ctx.violation("%s|unexpected_%s|%s" % (pre, exc_name(raised), oc), "legal edit raised", case, "success", repr(raised))
